@@ -102,7 +102,8 @@ def parse_race_reports(text):
                     continue
                 if first:
                     first = False
-                    grow = "bitmap.(*Bitmap).grow" in line
+                if "bitmap.(*Bitmap).grow" in line:
+                    grow = True  # some frame below the first kelindar/column frame re-allocates a bitmap
                 m = re.match(r"\s+(github\.com/kelindar/column\S*?)\(\)?\s*$", line) or re.match(r"\s+(github\.com/kelindar/column[^\s]*)\(", line)
                 if m:
                     fn = m.group(1)
